@@ -329,7 +329,12 @@ def execute(ctx, cases):
 
 
 def run(ctx):
-    ctx.lean_stage()
+    # the pure shape functions (merge_small_dims, BlockPartitioner.__init__, should_precondition_dims, _derive_shapes,
+    # _blocks_metadata) are re-translated from the current source; Props/Gen.lean bridges them to Model/Shapes.lean
+    kit.gen_stage(ctx)
+    ctx.lean_stage(extra_props=("Gen",))
+    ctx.notes.append("model tie #2: Gen/Src.lean regenerated from the source by harness/py2lean.py on this run; bridge theorems "
+                     "PrecondVerif.GenProps.C06.* (Props/Gen.lean) prove it equal to Model/Shapes.lean for all shapes / block sizes")
     cases, note = gen_cases(ctx.tier, ctx.seed)
     ctx.cov["rule"] = ("shapes enumerated: " + note + ", plus seeded random shapes of rank 4-5; a case is non-trivial when it has "
                        "rank>=2 (merge), at least one axis really split (partition), rank>=1 (preconditioner bookkeeping, reshaper) "
